@@ -1,6 +1,6 @@
 (* C07 — the statements are not vacuous: concrete runs that exercise them, and traces the acceptors reject. *)
 From Coq Require Import List ZArith Bool Lia.
-From SV Require Import C07.Model C07.Spec C07.ProofsHook C07.ProofsId C07.ProofsOffsets C07.ProofsEnds.
+From SV Require Import C07.Model C07.Spec C07.ProofsHook C07.ProofsId C07.ProofsOffsets C07.ProofsEnds C07.ProofsReturns.
 Import ListNotations.
 Open Scope Z_scope.
 
@@ -54,6 +54,11 @@ Proof. vm_compute. reflexivity. Qed.
 (* c07_session_ends: a state with phase PRunning is reachable *)
 Example ex_running : w_phase (final ex_cfg (init_world ex_store ex_log) (firstn 16 ex_inputs)) = PRunning.
 Proof. vm_compute. reflexivity. Qed.
+
+(* c07_consume_returns: after the rebalance announcement the state is winding down with two claims still running *)
+Example ex_winding :
+  let w := final ex_cfg (init_world ex_store ex_log) (firstn 17 ex_inputs) in winding w /\ mu ex_cfg w = 8%nat.
+Proof. vm_compute. auto. Qed.
 
 (* the acceptors have teeth *)
 Example hook_rejects_claim_before_setup : accept hook_step hs_idle [EvCall; EvAssigned [1]; EvClaimStart 1 0] = None.
